@@ -550,7 +550,7 @@ func spec_loadInv(u *Universe, local map[string]bool, direct map[string]bool, ro
 }
 
 //@ func Load
-//@   props C04 C07 C08 C13
+//@   props C04 C07 C08 C13 C02
 //@   requires forall i int :: 0 <= i && i < len(options) ==> options[i] != nil
 //@   assigns *
 //@   lit 1 modular
